@@ -34,6 +34,7 @@ impl Out {
         }
     }
     fn bad(&mut self, oracle: &'static str, msg: String, desc: &str) {
+        *self.counters.entry("violating_cases".to_string()).or_insert(0) += 1;
         if self.violations.len() < 6 {
             self.violations.push((Violation { prop: "C19", oracle, msg }, Json::obj().with("engine", self.engine).with("case", desc)));
         }
